@@ -380,9 +380,16 @@ package commands
 // Queueing an object for the remote check touches only the queue's own state.
 //@ func (*github.com/git-lfs/git-lfs/v3/tq.TransferQueue).Add
 //@   assumed
-//@   props C05 C03
+//@   props C05 C03 C06
 //@   modifies fresh, map q.transfers, fields q.wait, ghost qadds[q]
 //@   ensures qadds(q) == old(qadds(q)) + 1
+// Checked although assumed (C06): an object added without error is remembered
+// and - unless its oid is already under way - queued exactly as given (name,
+// path, oid, size, missing flag); an error handed in goes to the error channel.
+//@   requires @inv q != nil
+//@   at call (*tq.TransferQueue).remember:1 assert arg0__ == q && arg1__ == t && t.Name == old(name) && t.Path == old(path) && t.Oid == old(oid) && t.Size == old(size) && t.Missing == old(missing) && old(err) == nil
+//@   at send incoming assert mapval__ == t && len(objs.objects) <= 1
+//@   at send errorc assert mapval__ == old(err) && old(err) != nil
 
 // progress output and queue construction used by prune (assumed frames)
 //@ func logVerboseOutput
